@@ -4,6 +4,7 @@ package main
 
 import (
 	"fmt"
+	"sort"
 	"go/constant"
 	"go/types"
 	"strings"
@@ -645,6 +646,14 @@ func (r *Run) evalCall(env *SpecEnv, x ECall) SV {
 		a := r.eval(env, x.Args[0])
 		i := r.eval(env, x.Args[1])
 		v := r.eval(env, x.Args[2])
+		if la, ok := a.T.(*logicalArray); ok {
+			if v.t.S == "nil" {
+				v = SV{t: r.eng.u.zeroOf(la.elem), T: la.elem}
+			}
+			if i.t.S == "nil" {
+				i = SV{t: r.eng.u.zeroOf(la.key), T: la.key}
+			}
+		}
 		return SV{t: store(a.t, i.t, v.t), T: a.T}
 	case "addr":
 		// addr(p.f.g): the identity of an interior location (see locAsTerm)
@@ -988,17 +997,23 @@ func (r *Run) havocModifies(env *SpecEnv, pre, st *State, m Expr, src string) {
 		}
 	}()
 	penv := env.inState(pre)
-	if r.writes != nil {
-		// during a loop probe: whatever a callee may modify is an unknown (non-fresh) target
+	{
 		before := map[string]string{}
 		for k, t := range st.heaps {
 			before[k] = t.S
 		}
 		defer func() {
+			var changed []string
 			for k, t := range st.heaps {
 				if before[k] != t.S {
-					r.noteWrite(k, "?")
+					changed = append(changed, k)
 				}
+			}
+			sort.Strings(changed)
+			for _, k := range changed {
+				// during a loop probe: whatever a callee may modify is an unknown (non-fresh) target
+				r.noteWrite(k, "?")
+				r.assumeHeapWF(st, k)
 			}
 		}()
 	}
